@@ -726,41 +726,51 @@ def set_keyed_checks(ctx, fam, rec, out):
 def correspondence(ctx):
     rng = ctx.rng
     drv = common.Driver("drv_c02")
-    n_full = 140 if ctx.thorough else 30
-    n_sampled = 700 if ctx.thorough else 120
-    n_uni = 14 if ctx.thorough else 8
+    n_full = 300 if ctx.thorough else 30
+    n_sampled = 1700 if ctx.thorough else 120
+    n_uni = 30 if ctx.thorough else 8
     k_uni = 6 if ctx.thorough else 4
     n_meta = 120 if ctx.thorough else 25
     n_cross = 60 if ctx.thorough else 12
     work = []
+
+    def flush(force=False):
+        if not work or (len(work) < 150 and not force) or len(ctx.spec_failures) > 20:
+            return
+        outs = drv.run([w[1] for w in work])
+        for (fam, req, rec), out in zip(work, outs):
+            judge(ctx, fam, req, rec, out)
+            set_keyed_checks(ctx, fam, rec, out)
+            m = out["model"]
+            ctx.count("model/pairs-equal", sum(1 for v in m["eq"] if v))
+            for n, (x, y) in enumerate(rec["plist"]):
+                if x == 0 and fam.tags and fam.tags[0] == "base" and fam.tags[y].startswith("copy:"):
+                    ctx.count(f"model/base-vs-{fam.tags[y]}: {'equal' if m['eq'][n] else 'NOT equal'}")
+            ctx.count("model/pairs-hashkey-equal", sum(1 for v in m["keyEq"] if v))
+            ctx.count("model/pairs-unhashable", sum(1 for v in m["keyEq"] if v is None))
+            ctx.count("model/cell-pairs-equal", sum(1 for v in m["cellEq"] if v))
+            ctx.count("model/membership-true", sum(1 for v in m["mem"] if v))
+            ctx.count("model/le-true", sum(1 for v in m["le"] if v))
+            ctx.count("model/disjoint-true", sum(1 for v in m["disj"] if v))
+            if len(ctx.spec_failures) > 20:
+                break
+        work.clear()
+
     with tempfile.TemporaryDirectory(prefix="verif-c02-") as tmpdir:
         for i in range(n_full + n_sampled):
             work.append(variant_family(ctx, rng, i, full=i < n_full, tmpdir=tmpdir))
+            flush()
     for kind in ("U", "I", "C"):
         for i in range(n_uni if kind != "C" else max(2, n_uni // 3)):
             w = universe_family(ctx, rng, f"{kind}{i}", k_uni, kind)
             if w:
                 work.append(w)
+            flush()
     for i in range(n_meta):
         work.append(metadata_family(ctx, rng, i))
     for i in range(n_cross):
         work.append(cross_family(ctx, rng, i))
-    outs = drv.run([w[1] for w in work])
-    for (fam, req, rec), out in zip(work, outs):
-        judge(ctx, fam, req, rec, out)
-        set_keyed_checks(ctx, fam, rec, out)
-        ctx.count("model/pairs-equal", sum(1 for v in out["model"]["eq"] if v))
-        for n, (x, y) in enumerate(rec["plist"]):
-            if x == 0 and fam.tags and fam.tags[0] == "base" and fam.tags[y].startswith("copy:"):
-                ctx.count(f"model/base-vs-{fam.tags[y]}: {'equal' if out['model']['eq'][n] else 'NOT equal'}")
-        ctx.count("model/pairs-hashkey-equal", sum(1 for v in out["model"]["keyEq"] if v))
-        ctx.count("model/pairs-unhashable", sum(1 for v in out["model"]["keyEq"] if v is None))
-        ctx.count("model/cell-pairs-equal", sum(1 for v in out["model"]["cellEq"] if v))
-        ctx.count("model/membership-true", sum(1 for v in out["model"]["mem"] if v))
-        ctx.count("model/le-true", sum(1 for v in out["model"]["le"] if v))
-        ctx.count("model/disjoint-true", sum(1 for v in out["model"]["disj"] if v))
-        if len(ctx.spec_failures) > 20:
-            break
+    flush(force=True)
     ctx.notes.append("NaN-free data only (generator); 0-d arrays only in the `copy:0-d-arrays` variants, where "
                      "hash is expected to raise; arrays with >= 2 dimensions only in the `reshape(n,1)` edits")
 
